@@ -461,6 +461,9 @@ func (rn *runner) scriptedServer(i int, c *SimConn) {
 	b.WriteString("HTTP/1.1 101 Switching Protocols\r\nUpgrade: websocket\r\nConnection: Upgrade\r\n")
 	b.WriteString("Sec-WebSocket-Accept: " + acceptKey(p.Key) + "\r\n")
 	switch {
+	case l.PeerExtReply != "":
+		b.WriteString("Sec-WebSocket-Extensions: " + l.PeerExtReply + "\r\n")
+		p.Negotiated = l.PeerComp == "both"
 	case l.PeerComp == "server_only":
 		b.WriteString("Sec-WebSocket-Extensions: permessage-deflate; server_no_context_takeover\r\n")
 		p.Negotiated = false
